@@ -104,7 +104,7 @@ def site(body, bb):
 
 def who(ctx, prog, rule, pat, allowed_fn, what, floor=None):
     """T-who: every call site whose callee matches `pat` lies in a function accepted by allowed_fn."""
-    calls = prog.calls_matching(pat)
+    calls = prog.calls_matching_all(pat)
     n = 0
     for c in calls:
         n += 1
